@@ -51,6 +51,8 @@ type Run struct {
 	Sample     any    // a written-out sample case for evidence
 }
 
+var evlog *os.File // optional event log (SIM_EVLOG) for determinism debugging
+
 var progress atomic.Int64 // bumped by drivers; watched by the real-time watchdog
 
 func newRun(prop, tier string, seed int64, tape *Tape, dir string) *Run {
@@ -397,6 +399,15 @@ func (s *Sched) StepOnce(actions []Action, tickOK bool) bool {
 	r.Step()
 	now := r.SimNow()
 	all := s.Parked()
+	if evlog != nil {
+		var sb strings.Builder
+		fmt.Fprintf(&sb, "%d t=%d tape=%d [", r.Steps, now.Microseconds(), r.Tape.Pos())
+		for _, g := range all {
+			fmt.Fprintf(&sb, "%s@%s:%s ", g.Name, g.seam, g.detail)
+		}
+		sb.WriteString("]\n")
+		evlog.WriteString(sb.String())
+	}
 	var enabled []*G
 	var nextWake time.Duration
 	for _, g := range all {
@@ -473,6 +484,26 @@ func (s *Sched) StepOnce(actions []Action, tickOK bool) bool {
 		return false
 	}
 	o := opts[r.Tape.Pick(weights)]
+	if evlog != nil {
+		var names []string
+		for i, op := range opts {
+			switch {
+			case op.g != nil:
+				names = append(names, fmt.Sprintf("%s/%d", op.g.Name, weights[i]))
+			case op.a != nil:
+				names = append(names, fmt.Sprintf("!%s/%d", op.a.Name, weights[i]))
+			default:
+				names = append(names, fmt.Sprintf("tick/%d", weights[i]))
+			}
+		}
+		ch := "tick"
+		if o.g != nil {
+			ch = o.g.Name
+		} else if o.a != nil {
+			ch = "!" + o.a.Name
+		}
+		fmt.Fprintf(evlog, "   opts=%v -> %s\n", names, ch)
+	}
 	switch {
 	case o.g != nil:
 		r.mixHash(o.g.Name + "@" + o.g.seam)
